@@ -445,6 +445,22 @@ func (C20rPost18a) TableName() string   { return "c20r_posts" }
 func (C20rWriter18) TableName() string  { return "c20r_writers" }
 func (C20rPost18) TableName() string    { return "c20r_posts" }
 
+// ---- F19 composite belongs-to next to a has-many over the FIRST of its two columns only ----------------
+type C20rRegion19 struct {
+	Country string       `gorm:"primaryKey;size:2"`
+	Code    string       `gorm:"primaryKey;size:8"`
+	Cities  []C20rCity19 `gorm:"foreignKey:RCountry;references:Country"`
+}
+type C20rCity19 struct {
+	ID       uint
+	RCountry string        `gorm:"size:2"`
+	RCode    string        `gorm:"size:8"`
+	Region   *C20rRegion19 `gorm:"foreignKey:RCountry,RCode;references:Country,Code"`
+}
+
+func (C20rRegion19) TableName() string { return "c20r_regions" }
+func (C20rCity19) TableName() string   { return "c20r_cities" }
+
 // ---- the library -----------------------------------------------------------------------------
 
 type c20Family struct {
@@ -453,6 +469,8 @@ type c20Family struct {
 	FK1    []c20WantFK // foreign keys declared by V1
 	FK2    []c20WantFK // foreign keys declared by V2
 	Tables []string    // every table of the family (V2), incl. join tables
+	NoSolo []int       // V2 models whose table carries a foreign key that only ANOTHER model's has-one/has-many declares:
+	//                    migrated alone on a cold schema cache they need not know about it (parse history), so not judged alone
 }
 
 func c20fk(table string, from string, ref string, to string) c20WantFK {
@@ -483,7 +501,7 @@ var c20Families = []c20Family{
 		V1: []interface{}{&C20rTeam5a{}, &C20rPerson5a{}}, V2: []interface{}{&C20rTeam5{}, &C20rPerson5{}},
 		FK1:    []c20WantFK{c20fk("c20r_persons", "team_id", "c20r_teams", "id")},
 		FK2:    []c20WantFK{c20fk("c20r_persons", "team_id", "c20r_teams", "id"), c20fk("c20r_persons", "leads_id", "c20r_teams", "id")},
-		Tables: []string{"c20r_teams", "c20r_persons"}},
+		NoSolo: []int{1}, Tables: []string{"c20r_teams", "c20r_persons"}},
 	{Name: "F06-self-reference",
 		V1: []interface{}{&C20rNode6a{}}, V2: []interface{}{&C20rNode6{}},
 		FK2:    []c20WantFK{c20fk("c20r_nodes", "parent_id", "c20r_nodes", "id")},
@@ -504,7 +522,7 @@ var c20Families = []c20Family{
 		FK1: []c20WantFK{c20fk("c20r_user_langs", "user_id", "c20r_users", "id"), c20fk("c20r_user_langs", "lang_id", "c20r_langs", "id")},
 		FK2: []c20WantFK{c20fk("c20r_user_langs", "user_id", "c20r_users", "id"), c20fk("c20r_user_langs", "lang_id", "c20r_langs", "id"),
 			c20fk("c20r_langs", "owner_id", "c20r_users", "id")},
-		Tables: []string{"c20r_langs", "c20r_users", "c20r_user_langs"}},
+		NoSolo: []int{0}, Tables: []string{"c20r_langs", "c20r_users", "c20r_user_langs"}},
 	{Name: "F10-hasone-and-mirror-belongs-to",
 		V2:     []interface{}{&C20rUser10{}, &C20rProfile10{}},
 		FK2:    []c20WantFK{c20fk("c20r_profiles", "user_id", "c20r_users", "id")},
@@ -513,7 +531,7 @@ var c20Families = []c20Family{
 		V1: []interface{}{&C20rTeam11a{}, &C20rPerson11{}}, V2: []interface{}{&C20rTeam11{}, &C20rPerson11{}},
 		FK1:    []c20WantFK{c20fk("c20r_persons", "team_id", "c20r_teams", "id")},
 		FK2:    []c20WantFK{c20fk("c20r_persons", "team_id", "c20r_teams", "id"), c20fk("c20r_persons", "lead_of_id", "c20r_teams", "id")},
-		Tables: []string{"c20r_teams", "c20r_persons"}},
+		NoSolo: []int{1}, Tables: []string{"c20r_teams", "c20r_persons"}},
 	{Name: "F12-composite-two-belongs-to",
 		V1: []interface{}{&C20rRegion12{}, &C20rCity12a{}}, V2: []interface{}{&C20rRegion12{}, &C20rCity12{}},
 		FK1:    []c20WantFK{c20fk("c20r_cities", "r_country,r_code", "c20r_regions", "country,code")},
@@ -543,6 +561,10 @@ var c20Families = []c20Family{
 		V2:     []interface{}{&C20rA17{}, &C20rB17{}},
 		FK2:    []c20WantFK{c20fk("c20r_as", "b_id", "c20r_bs", "id"), c20fk("c20r_bs", "a_id", "c20r_as", "id")},
 		Tables: []string{"c20r_as", "c20r_bs"}},
+	{Name: "F19-composite-belongs-to-and-hasmany-over-its-first-column",
+		V2: []interface{}{&C20rRegion19{}, &C20rCity19{}},
+		FK2: []c20WantFK{c20fk("c20r_cities", "r_country,r_code", "c20r_regions", "country,code"), c20fk("c20r_cities", "r_country", "c20r_regions", "country")},
+		NoSolo: []int{1}, Tables: []string{"c20r_regions", "c20r_cities"}},
 	{Name: "F18-renamed-key-columns-hasmany-over-second-key",
 		V1: []interface{}{&C20rWriter18a{}, &C20rPost18a{}}, V2: []interface{}{&C20rWriter18{}, &C20rPost18{}},
 		FK1:    []c20WantFK{c20fk("c20r_posts", "auth_ref", "c20r_writers", "wid")},
@@ -566,6 +588,7 @@ type c20RelSpec struct {
 	Order1 []int   `json:"order1"` // permutation of V1 for the V1 call
 	Calls2 [][]int `json:"calls2"` // AutoMigrate calls for V2: index lists into V2; the LAST call names every model
 	Warm   bool    `json:"warm"`   // parse all V2 models before migrating them (schema cache warm)
+	Solo   bool    `json:"solo"`   // Calls2 is ONE call naming ONE model: its dependencies must be auto-added
 }
 
 type c20RelOutcome struct {
@@ -816,6 +839,35 @@ func c20RunRel(sp c20RelSpec) (out c20RelOutcome) {
 			return fail("v2", "rows of "+d.table+" changed across AutoMigrate(V2)", canon(d.rows), canon(now)+fmt.Sprint(err))
 		}
 	}
+	if sp.Solo {
+		// one model was named: the foreign keys ITS table declares exist, and so does every table they reference
+		// (ReorderModels adds the models a constraint depends on)
+		solo := pick(fam.V2, sp.Calls2[0])
+		st := &gorm.Statement{DB: db}
+		if len(solo) != 1 || st.Parse(solo[0]) != nil {
+			return c20RelOutcome{Stage: "bad-input"}
+		}
+		var own []c20WantFK
+		for _, w := range fam.FK2 {
+			if w.Table == st.Schema.Table {
+				own = append(own, w)
+				if !c20TableExists(db, rec, w.Ref) {
+					return fail("solo", "AutoMigrate("+st.Schema.Table+") declares a foreign key to "+w.Ref+" but that table was not created (dependency not auto-added)", w.Ref, "missing")
+				}
+			}
+		}
+		if v, e, o := c20JudgeFKs(db, rec, []string{st.Schema.Table}, own); v != "" {
+			return fail("solo", v, e, o)
+		}
+		rec.Reset()
+		err := db.AutoMigrate(solo...)
+		if ddl := c20SchemaStmts(rec.Snapshot()); err != nil || len(ddl) > 0 {
+			out.DDL = ddl
+			return fail("again", "repeated AutoMigrate of one model issued schema-changing statements or failed", "no CREATE/ALTER/DROP", strings.Join(ddl, " ;; ")+" "+fmt.Sprint(err))
+		}
+		out.Stage = "ok"
+		return
+	}
 	if v, e, o := c20JudgeFKs(db, rec, fam.Tables, fam.FK2); v != "" {
 		return fail("v2-exists", v, e, o)
 	}
@@ -881,6 +933,17 @@ func c20GenRel(rng *rand.Rand) c20RelSpec {
 		sp.Calls2 = append(sp.Calls2, []int{rng.Intn(n)})
 	}
 	sp.Calls2 = append(sp.Calls2, rng.Perm(n))
+	if !sp.Later && rng.Intn(4) == 0 { // fresh database, one model named alone
+		k := rng.Intn(n)
+		ok := true
+		for _, x := range fam.NoSolo {
+			ok = ok && x != k
+		}
+		if ok {
+			sp.Solo, sp.Warm = true, false
+			sp.Calls2 = [][]int{{k}}
+		}
+	}
 	return sp
 }
 
@@ -903,7 +966,7 @@ func c20ReplayRel(r *Result, input json.RawMessage) {
 }
 
 func c20RelSuite(r *Result, rng *rand.Rand, tier string) {
-	n := 250
+	n := 400
 	if tier == "thorough" {
 		n = 4000
 	} else if tier == "search" {
@@ -923,7 +986,7 @@ func c20RelSuite(r *Result, rng *rand.Rand, tier string) {
 		o := c20JudgeRel(r, sp)
 		r.Case("relations", canon(sp), o.Stage == "ok")
 		r.H("rel.family", sp.Family)
-		r.H("rel.mode", fmt.Sprintf("later=%v calls=%d warm=%v", sp.Later, len(sp.Calls2), sp.Warm))
+		r.H("rel.mode", fmt.Sprintf("later=%v calls=%d warm=%v solo=%v", sp.Later, len(sp.Calls2), sp.Warm, sp.Solo))
 		if i < 2 {
 			r.Sample(sp)
 		}
